@@ -383,3 +383,23 @@ Proof.
   split. { unfold loadable. vm_compute. repeat split; eauto. }
   vm_compute. repeat split; try reflexivity; discriminate.
 Qed.
+
+(* the side condition [sched_fine] is satisfiable for a content-tagged source (file source without
+   mtime in the tag) on a schedule with world changes before and after a check *)
+Definition ex_ls_content : list slabel :=
+  [SLEv (EWrite (BDoc 2%nat)); SLSpawn false; SLStep 0%nat 1 0; SLStep 0%nat 1 0; SLStep 0%nat 1 0; SLStep 0%nat 1 0;
+   SLEv (EWrite (BDoc 5%nat))].
+Example c10_example_sched_fine_content :
+  let src := file_source false in
+  let cf0 := cf_init cfg0 src false false 1%nat w1 st_file in
+  sched_fine cfg0 src ex_ls_content cf0
+  /\ policy (gd (cs (run cfg0 src (map to_label ex_ls_content) cf0))) = 2%nat
+  /\ loadable (wld (cs (run cfg0 src (map to_label ex_ls_content) cf0))) 5%nat.
+Proof.
+  intros src cf0. split; [|split].
+  - cbn [sched_fine ex_ls_content]. repeat split; try exact I;
+      intro Hex; exfalso; vm_compute in Hex;
+      repeat match goal with H : Exists _ _ |- _ => inversion H; clear H; subst end; auto.
+  - vm_compute. reflexivity.
+  - unfold loadable. vm_compute. repeat split; eauto.
+Qed.
